@@ -159,7 +159,7 @@ func judge(c *vlib.Ctx, typeName string, model porcupine.Model, h []hop, label s
 
 // ---- linked types (lmap) ------------------------------------------------------------------
 
-var lmapPoint = []string{"Put", "PutFirst", "PutLast", "Add", "AddFirst", "AddLast", "Get", "GetLRU", "ContainsKey",
+var lmapPoint = []string{"Put", "PutFirst", "PutLast", "Add", "AddFirst", "AddLast", "AddNoOver", "Get", "GetLRU", "ContainsKey",
 	"Remove", "RemoveFirst", "RemoveLast", "Clear", "Size", "IsEmpty", "IsFull"}
 
 func lmapKey(t *lmap.TypeDesc, i int) interface{} {
@@ -196,15 +196,25 @@ func linLmap(c *vlib.Ctx, t *lmap.TypeDesc, r *vlib.Rand, label string, gomax in
 		}
 	}
 	nkeys := r.Range(1, 4)
+	// bounded instances: a share of the histories is mostly "add unless full" on fresh keys, so that
+	// several callers meet at the last free slot (check-then-act atomicity of the bound)
+	boundRace := cfg.Max > 0 && t.Supports("AddNoOver") && r.Intn(2) == 0
+	if boundRace {
+		nkeys = 5
+		c.Count("lin_histories_racing_for_the_last_slot", 1)
+	}
 	var vid int64 = 1000
 	mk := func(rr *vlib.Rand) lmap.Op {
 		name := ops[rr.Intn(len(ops))]
 		if name == "Clear" && rr.Intn(3) != 0 {
 			name = "Put"
 		}
+		if boundRace && rr.Intn(10) < 6 {
+			name = "AddNoOver"
+		}
 		op := lmap.Op{Name: name}
 		switch name {
-		case "Put", "PutFirst", "PutLast", "Add", "AddFirst", "AddLast":
+		case "Put", "PutFirst", "PutLast", "Add", "AddFirst", "AddLast", "AddNoOver":
 			op.K = lmapKey(t, rr.Intn(nkeys))
 			op.V = lmapVal(t, atomic.AddInt64(&vid, 1))
 			if strings.HasPrefix(name, "Add") {
